@@ -29,7 +29,7 @@ var (
 func replayFsck(c *core.Ctx, lfsBin string, b *behaviour, idx int) (*core.Violation, error) {
 	root := filepath.Join(c.Work, fmt.Sprintf("w%d", idx))
 	defer os.RemoveAll(root)
-	w, err := NewWorldOpts(root, filepath.Dir(lfsBin), c.Seed, WorldOpts{CommitAttrs: true})
+	w, err := NewWorldOpts(root, filepath.Dir(lfsBin), c.Seed, WorldOpts{CommitAttrs: true, RawBig: b.hash%2 == 1})
 	if err != nil {
 		return nil, err
 	}
@@ -96,8 +96,9 @@ func replayFsck(c *core.Ctx, lfsBin string, b *behaviour, idx int) (*core.Violat
 				return mk("reports-every-damaged-object", "corrupt object "+o+" was not reported"), nil
 			}
 		}
+		mayReport, mayMove := toSet(toStrings(s["mayReport"])), toSet(toStrings(s["mayMove"]))
 		for o := range reported {
-			if !wantMissing[o] && !wantCorrupt[o] {
+			if !wantMissing[o] && !wantCorrupt[o] && !mayReport[o] {
 				return mk("reports-nothing-else", "object "+o+" was reported ("+reported[o]+") although it is intact or out of scope"), nil
 			}
 		}
@@ -109,7 +110,13 @@ func replayFsck(c *core.Ctx, lfsBin string, b *behaviour, idx int) (*core.Violat
 			return mk("reports-exactly-the-bad-pointers", fmt.Sprintf("%d pointer problems reported, the specification lists %v", nptr, wantPtr)), nil
 		}
 		ok, _ := s["ok"].(bool)
-		if ok != (r.Code == 0) {
+		reportedMay := false
+		for o := range reported {
+			if mayReport[o] {
+				reportedMay = true // damage the range may or may not cover was reported: the exit status follows it
+			}
+		}
+		if ok != (r.Code == 0) && !(ok && reportedMay) {
 			return mk("exit-status-iff-clean", fmt.Sprintf("specification says ok=%v, exit code %d", ok, r.Code)), nil
 		}
 		// the store: intact objects untouched, corrupt ones moved (not deleted) unless --dry-run
@@ -119,6 +126,11 @@ func replayFsck(c *core.Ctx, lfsBin string, b *behaviour, idx int) (*core.Violat
 			o := w.Abstract(filepath.Base(rel))
 			now, still := after[rel]
 			switch {
+			case mayMove[o] && !still:
+				// a corrupt object the range may cover was repaired: it must be under lfs/bad all the same
+				if bb, ok := bad[o]; !ok || !bytes.Equal(bb, by) {
+					return mk("corrupt-objects-moved-aside", "corrupt object "+o+" was removed but not preserved byte-identically under lfs/bad"), nil
+				}
 			case moved[o]:
 				if still {
 					return mk("corrupt-objects-moved-aside", "corrupt object "+o+" is still in the object store after the repair"), nil
